@@ -2043,7 +2043,9 @@ def generate(rng, tier):       # noqa: naming and numeric modes, structural tags
         r = rng.random()
         if r < 0.3 and 'hash_alike' not in case['_tags']:
             mode = NUM_MODES[int(r / 0.3 * len(NUM_MODES)) % len(NUM_MODES)]
-            if not (mode == 'float' and models & {'pav', 'borda'}):
+            # score aggregation materialises one list element per vote (known, DESIGN 11.1): no big counts on score ballots
+            score = '{"S": [{"T": [' in json.dumps(case['calls'])
+            if not (mode == 'float' and models & {'pav', 'borda'}) and not (score and mode in ('big', 'big53', 'huge')):
                 st = [0]
                 for c in case['calls']:
                     if c['a']:
